@@ -23,6 +23,7 @@ func init() {
 			"R3 Marshal replaces m.AVP and then recomputes Header.MessageLength from m.Len(); " +
 			"R4 the struct scanner builds its field index from, and recurses into embedded structs with, its own complete AVP list; R5 for pointer and interface fields 'empty' is exactly IsNil(). " +
 			"R2 also: exactly one AVP is produced per marshalled value (slices: one per element). R6 no function on the Marshal / Unmarshal path writes package-level state, so concurrent calls and calls in sequence cannot influence one another. " +
+			"R2 also: the Data of the produced AVP is a grouped value built in marshal or the field converted through a reflect value of the type the dictionary prescribes, never the field used as it is. R6 also: no append on the Marshal path has as its first argument a slice that can be one taken from the caller's struct. " +
 			"NOT decided (not applicable to static analysis): that Unmarshal∘Marshal is the identity over field shapes and values — reflection-driven, value-level behaviour that only execution can settle; parseAvpTag's string handling.",
 		Rules: map[string]string{
 			"R1": "marshal's type switch is exhaustive over datatype.Available and each case targets the type whose Type() is the case constant",
@@ -187,6 +188,7 @@ func runC18(c *Ctx) {
 		}
 	})
 	litFn := mf
+	var litCall ssa.CallInstruction
 	if dictParam != nil && avpAlloc == nil {
 		// the AVP may be built by a helper that is handed the dictionary AVP
 		for _, ci := range flow.CallInstrs(mf) {
@@ -204,6 +206,7 @@ func runC18(c *Ctx) {
 							if fa, ok := ref.(*ssa.FieldAddr); ok {
 								if _, fld, _, _ := flow.FieldOf(fa); fld == "Code" {
 									avpAlloc, litFn, dictParam = al, h, h.Params[i]
+									litCall = ci
 								}
 							}
 						}
@@ -302,6 +305,15 @@ func runC18(c *Ctx) {
 				seen[v] = true
 				switch x := v.(type) {
 				case *ssa.Const:
+				case *ssa.Parameter:
+					// the literal is built by a helper that is handed the data: judged at the helper's call
+					if litCall != nil && x.Parent() == litFn {
+						if i := paramIndex(litFn, x); i < len(litCall.Common().Args) {
+							visit(litCall.Common().Args[i], d+1)
+							return
+						}
+					}
+					bad = "the AVP's data is a parameter whose origin is not visible"
 				case *ssa.Phi:
 					for _, e := range x.Edges {
 						visit(e, d+1)
